@@ -9,3 +9,12 @@ shim.setup_env()
 for d in ("evidence", "replays"):
     (V / d).mkdir(exist_ok=True)
 print("setup: cache dirs ready under", V / ".cache")
+
+import multiprocessing as mp
+if __name__ == "__main__":
+    shim.install()
+    from harness import conform
+    pool = mp.get_context("spawn").Pool(min(16, os.cpu_count() or 1))
+    s = conform.ensure(pool=pool)
+    pool.close(); pool.join()
+    print("setup: conformance", {k: (v if not isinstance(v, list) else len(v)) for k, v in s.items()})
